@@ -93,7 +93,7 @@ CHECKS = {
              'hands on exactly those upstream stacks, in order and as the very same objects, on which its predicate says yes '
              '(loop contract with a ghost index: unbounded in the number of upstream stacks); pred_not/and/or::result evaluate '
              'their operands on the stack they were given and combine verdicts by the tables. Virtual op::next and pred::result '
-             'are modelled.',
+             'are modelled. (3) Wiring (build_exec of build.cc, cases SUBX_EVAL and ASSERT, loop-free: complete against the model): a sub-expression context is an op_subx on the current upstream driving exactly the sub-expression built for it on an origin of its own and keeping the number of values the parser recorded; an assertion is an op_assert on the current upstream driven by the one predicate built from the asserted expression in the current scope.',
         design_ref='DESIGN.md section 4 C04',
         note='SLICE ONLY: sub-expression contexts (op_subx, pred_subx_any), let and capture are not covered; the model predicate '
              'does not modify its stack (whether real predicates do is not covered).',
